@@ -1,6 +1,6 @@
 """C12 parts 2-4: default capacities of lexer automaton / parse table, user-supplied limits around the real need,
 fixed stacks used with cstring_buffer."""
-import random, collections, traceback, re
+import random, collections, traceback, re, itertools
 from . import common, ref_lr1, gen_grammar as gg, emit_grammar as eg, model, diag as dg, lexer_check as lxc
 from .grammar import Grammar, Rule, Term, simple
 
@@ -41,6 +41,16 @@ int main() {
 def beyond_cap_witnesses():
     gs = [simple('N0->c N1; N1->N3; N1->c N2 N3; N2->N2 a c N2; N2->N0 N0; N3->N4; N4->N2 a N0 b; N4->b; N4->N0 N1 N2')]
     return gs
+
+def near_cap_corpus(quick):
+    """frozen grammars (found by a directed random search) whose LR(1) automaton needs between 80% and 120% of the default state cap:
+    (within the cap, beyond the cap). A cap formula that shrinks a little fails on the first list."""
+    import json, os
+    rows = [json.loads(l) for l in open(os.path.join(common.VERIF, 'corpus', 'near_cap_grammars.jsonl'))]
+    within = [r for r in rows if r['need'] <= r['cap']]; beyond = [r for r in rows if r['need'] > r['cap']]
+    if quick: within = within[:10]; beyond = beyond[-3:]
+    mk = lambda r: simple(r['grammar'])
+    return [mk(r) for r in within], [mk(r) for r in beyond]
 
 def beyond_cap_worker(spec):
     """grammars whose LR(1) automaton is larger than the default state cap, constructed with default limits at compile time and at run time"""
@@ -242,6 +252,19 @@ def stack_worker(spec):
             s = gg.random_sentence(g, rnd, target=rnd.choice([2, 5, 10, 20, 30]), minlen=m)
             if s is not None and len(s) <= 60: inputs.append(b''.join(g.terms[t].text.encode('latin-1') for t in s))
         inputs += [bytes.fromhex(h) for h in spec.get('extra_inputs', [])]
+        # boundary: dense short texts (accepted or not) whose parse needs exactly the documented capacity N + E + 1, or one entry less
+        nb = 0
+        cands = [b''.join(g.terms[t].text.encode('latin-1') for t in seq) for L in range(0, 6) for seq in itertools.islice(itertools.product(range(len(g.terms)), repeat=L), 400)]
+        rnd.shuffle(cands)
+        for d in cands[:600]:
+            if nb >= spec.get('n_boundary', 12): break
+            ex = model.expect(g, tb, d)
+            if ex.res.hang or ex.lex.lexerr is not None: continue
+            cap = (len(d) + 1) + sum(1 for r in g.rules if len(r.rhs) == 0) + 1
+            if ex.res.maxdepth in (cap, cap - 1):
+                inputs.append(d); nb += 1
+                C['boundary_inputs_depth_equals_capacity'] += (ex.res.maxdepth == cap)
+                C['boundary_inputs_depth_one_below_capacity'] += (ex.res.maxdepth == cap - 1)
         inputs = list(dict.fromkeys(inputs))
         calls = []
         for k, d in enumerate(inputs):
@@ -275,7 +298,9 @@ def stack_worker(spec):
 
 def nullable_rich(rnd, n):
     """LR(1) grammars with runs of nullable symbols in front of tokens"""
-    out = [simple('S->eps | E F G ( S )\nE->eps\nF->eps\nG->eps'), simple('S->A B C d\nA->a | eps\nB->b | eps\nC->c | eps'), simple('L->L a | eps'), simple('S->E S x | y\nE->eps')]
+    out = [simple('S->eps | E F G ( S )\nE->eps\nF->eps\nG->eps'), simple('S->A B C d\nA->a | eps\nB->b | eps\nC->c | eps'), simple('L->L a | eps'), simple('S->E S x | y\nE->eps'),
+           # the whole text is shifted without a reduction, then one more entry is pushed (error token / an empty rule used twice)
+           simple('S->a b c | a b error'), simple('S->( B\nB->x ) | x x ) | x x error'), simple('S->O a O b\nO->eps'), simple('S->O O a\nO->eps | o'), simple('S->a S | eps'), simple('S->a S b | error')]
     st = gg.grammar_stream(rnd, want_lr1=1.0)
     tries = 0
     while len(out) < n and tries < 20000:
